@@ -6,7 +6,8 @@
    hypothesis is [decoder_ok]: x/text's streaming reader fed with the body in any pieces delivers
    what Decoder.Bytes makes of the whole body.  [respond ... = (o, true)] reads: the caller, reading
    with buffers of the given sizes, reached io.EOF and received o in total. *)
-From ReqV Require Import Lib.Bytes Model.Charset Proofs.CharsetProofs Proofs.CharsetTermination Proofs.CharsetPinned.
+From ReqV Require Import Lib.Bytes Model.Charset Model.CharsetFind Proofs.CharsetProofs Proofs.CharsetTermination
+     Proofs.CharsetFindProofs Proofs.CharsetPinned.
 
 (* for every body, every split into network reads, every sequence of caller buffer sizes and every
    hand-out schedule of the x/text reader: the delivered body is the original bytes or the
@@ -125,6 +126,58 @@ Theorem C15_should_decode_iff :
     disable = false /\ resp_ae = [] /\ selected sel ct = true.
 Proof. exact should_decode_iff. Qed.
 Print Assumptions C15_should_decode_iff.
+
+(* Byte-order marks (FindEncoding's table regenerated from internal/charsets/charsets.go; hypotheses:
+   decoder_ok, the HTML prescan finds nothing in <= 2 bytes, and what htmlcharset.Lookup answers for
+   the table's labels).  UTF-8 BOM: never transcoded, however the body is split and read ... *)
+Theorem C15_bom_utf8_never_transcoded :
+  forall (enc : Type) (dec_all : enc -> bytes -> bytes) (dec_stream : enc -> list bytes -> bytes)
+         (parse_ct : bytes -> ct_parse) (lookup_charset : bytes -> option enc)
+         (lookup_name prescan : bytes -> option (enc * bytes)),
+    decoder_ok dec_all dec_stream ->
+    (forall b, length b <= 2 -> prescan b = None) ->
+    forall disable sel resp_ae ct chunks eof_last takes sizes o rest0 e8 n8,
+      lookup_name (bs "utf-8") = Some (e8, n8) -> is_utf8_name n8 = true ->
+      decide parse_ct lookup_charset disable sel resp_ae ct = ISniff ->
+      concat chunks = [xef; xbb; xbf] ++ rest0 ->
+      respond dec_stream (find_encoding_m lookup_name prescan) parse_ct lookup_charset
+              disable sel resp_ae ct chunks eof_last takes sizes = (o, true) ->
+      o = concat chunks.
+Proof. exact bom_utf8_never_transcoded. Qed.
+Print Assumptions C15_bom_utf8_never_transcoded.
+
+(* ... UTF-16 BOM: transcoded from that UTF-16 flavour when the first non-empty read holds the two
+   bytes of the mark, left alone when it holds only one; no third outcome *)
+Theorem C15_bom_utf16_decided_by_first_read :
+  forall (enc : Type) (dec_all : enc -> bytes -> bytes) (dec_stream : enc -> list bytes -> bytes)
+         (parse_ct : bytes -> ct_parse) (lookup_charset : bytes -> option enc)
+         (lookup_name prescan : bytes -> option (enc * bytes)),
+    decoder_ok dec_all dec_stream ->
+    (forall b, length b <= 2 -> prescan b = None) ->
+    forall disable sel resp_ae ct chunks eof_last takes sizes o mark label rest0 e n b,
+      In (mark, label) [([xff; xfe], bs "utf-16le"); ([xfe; xff], bs "utf-16be")] ->
+      lookup_name label = Some (e, n) -> is_utf8_name n = false ->
+      decide parse_ct lookup_charset disable sel resp_ae ct = ISniff ->
+      concat chunks = mark ++ rest0 ->
+      first_read sizes (fresh_net chunks eof_last) = Some b ->
+      respond dec_stream (find_encoding_m lookup_name prescan) parse_ct lookup_charset
+              disable sel resp_ae ct chunks eof_last takes sizes = (o, true) ->
+      (2 <= length b -> o = dec_all e (concat chunks)) /\ (length b = 1 -> o = concat chunks).
+Proof. exact bom_utf16_decided_by_first_read. Qed.
+Print Assumptions C15_bom_utf16_decided_by_first_read.
+
+(* the default selection table and the utf-8 test as in the source (tables regenerated by gosync) *)
+Theorem C15_default_selection :
+  forall ct,
+    selected SelDefault ct = true <->
+    exists f, In f [bs "text"; bs "json"; bs "xml"; bs "html"; bs "java"] /\ contains_sub f ct = true.
+Proof. exact default_selection. Qed.
+Print Assumptions C15_default_selection.
+
+Theorem C15_utf8_label :
+  forall v, is_utf8_label v = contains_sub (bs "utf-8") v || contains_sub (bs "utf8") v.
+Proof. exact is_utf8_label_spec. Qed.
+Print Assumptions C15_utf8_label.
 
 (* caller buffer sizes do not matter beyond the size of the very first non-empty read *)
 Theorem C15_read_size_independent :
